@@ -517,6 +517,58 @@ Fixpoint prun_from (st : gstate) (cur : list nat) (tid : nat) (ts : list task) :
 Definition prun (nd ngpu cap : nat) (ts : list task) : list tres * bool :=
   prun_from (init_state nd ngpu cap) (repeat 0%nat nd) 0 ts.
 
+(* ---- parsec_gpu_task_update_pushout: which written flows must go back to the host -------------------- *)
+(* DISTRIBUTED build, MPI may not send from device memory: after the kernel the manager walks the successors of
+   the task (iterate_successors with the visitor parsec_gpu_pushout_remote_successor) to find the written flows that a
+   successor on another rank will need on the host.  [po] = flow indices whose pushout bit is set, [rem] = plan.remaining_flows
+   (written flows not yet known to need it), an event = one call of the visitor: (flow index, rank of the successor),
+   rank 0 = this rank.  The visitor: flow not in remaining -> nothing; successor remote -> set the bit, drop the flow from
+   remaining; in all cases the walk STOPs when remaining is empty. *)
+Definition memb (i : nat) (l : list nat) : bool := existsb (Nat.eqb i) l.
+Definition visit (acc : list nat * list nat * bool) (e : nat * nat) : list nat * list nat * bool :=
+  let '(po, rem, stop) := acc in
+  if stop then acc else
+  let '(i, r) := e in
+  if negb (memb i rem) then (po, rem, match rem with [] => true | _ => false end)
+  else if negb (Nat.eqb r 0) then
+    let rem' := remove_nat i rem in (i :: po, rem', match rem' with [] => true | _ => false end)
+  else (po, rem, match rem with [] => true | _ => false end).
+(* flows with their index *)
+Fixpoint indexed_from (k : nat) (fl : list flow) : list (nat * flow) :=
+  match fl with [] => [] | f :: r => (k, f) :: indexed_from (S k) r end.
+Definition indexed (fl : list flow) : list (nat * flow) := indexed_from 0 fl.
+(* bits set by the upper layer (PARSEC_PUSHOUT / final write-back) and the flows the walk looks at *)
+Definition po_init (fl : list flow) : list nat := map fst (filter (fun p => fpo (snd p)) (indexed fl)).
+Definition rem_init (fl : list flow) : list nat :=
+  map fst (filter (fun p => writes (fm (snd p)) && negb (fpo (snd p))) (indexed fl)).
+(* iterate_successors: flow by flow (those of the action mask = the remaining ones), successor by successor *)
+Definition events (fl : list flow) (succs : list (list nat)) : list (nat * nat) :=
+  flat_map (fun p => if memb (fst p) (rem_init fl) then map (fun r => (fst p, r)) (nth (fst p) succs []) else [])
+           (indexed fl).
+Definition pushout_bits (fl : list flow) (succs : list (list nat)) : list nat :=
+  match (if match rem_init fl with [] => true | _ => false end then (po_init fl, rem_init fl, true)
+         else fold_left visit (events fl succs) (po_init fl, rem_init fl, false)) with
+  | (po, _, _) => po
+  end.
+(* the flows as kernel_pop / kernel_epilog see them *)
+Definition with_pushout (fl : list flow) (succs : list (list nat)) : list flow :=
+  map (fun p => mkflow (fd (snd p)) (fm (snd p)) (memb (fst p) (pushout_bits fl succs))) (indexed fl).
+(* what the property requires: pushed out iff asked by the upper layer, or written with a successor on another rank *)
+Definition has_remote (l : list nat) : bool := existsb (fun r => negb (Nat.eqb r 0)) l.
+Definition needs_pushout (fl : list flow) (succs : list (list nat)) (i : nat) : bool :=
+  match nth_error fl i with
+  | Some f => fpo f || (writes (fm f) && has_remote (nth i succs []))
+  | None => false
+  end.
+(* update_pushout -> kernel_pop -> device-to-host copies -> kernel_epilog *)
+Definition post_kernel (st : gstate) (g : nat) (fl : list flow) (succs : list (list nat)) : gstate :=
+  let fl' := with_pushout fl succs in
+  epilog (run_d2h (fst (pop st g fl' [])) g fl') g fl'.
+
+(* a program whose tasks carry the successor ranks of their flows *)
+Definition prun_s (nd ngpu cap : nat) (ts : list (task * list (list nat))) : list tres * bool :=
+  prun nd ngpu cap (map (fun p => mktask (place (fst p)) (with_pushout (flows (fst p)) (snd p))) ts).
+
 (* ---- the reference: sequential semantics of the program (what C43 requires the tasks to see) ---- *)
 Definition mem := list Z.
 Definition ref_task (m : mem) (tid : nat) (fl : list flow) : list Z * mem :=
